@@ -804,6 +804,12 @@ def run(ctx):
     parser_strings(ctx, 3000 if ctx.thorough else 600)
     extract_positions(ctx, 400 if ctx.thorough else 80)
 
+    # extension: class instances (attributes) inside the same models - beyond the property's stated domain,
+    # recorded in the evidence file, never a violation (core.Ctx.extension; coq/theories/Obj)
+    with ctx.extension("Obj"):
+        from harness import objcommon as O
+        O.stream_c09(ctx)
+
 
 def replay(ctx, data):
     logging.disable(logging.CRITICAL)
